@@ -406,6 +406,14 @@ func TestReplay(t *testing.T) {
 	if !ok {
 		t.Skip("no replay file")
 	}
+	if cf.Test == "TestHistogramMagnitudes" {
+		var mc magCase
+		if err := json.Unmarshal(cf.Case, &mc); err != nil {
+			t.Fatal(err)
+		}
+		runMag(t, mc)
+		return
+	}
 	var c Case
 	if err := json.Unmarshal(cf.Case, &c); err != nil {
 		t.Fatal(err)
